@@ -27,7 +27,7 @@ RULE = ('cases: (a) exhaustive: n in 2..N systems x priority pattern {all distin
         'times. Non-trivial: the system set really changed during a step; distinct by (priorities, actor positions, actions).')
 ASSUMPTIONS = ['whether a system registered mid-timestep first runs in that timestep or the next is left open',
                'the oracle is computed from the script: a system removed before its turn does not perform its own scripted action']
-FLOORS = {'quick': {'other_model_stepped_inside_our_timestep': 2713, 'str_subclass_ids': 11455, 'falsy_system_objects': 9414, 'action_steps': 2400, 'act_cleanup': 60, 'act_remove_earlier': 90, 'act_remove_later': 90, 'act_add_higher': 120,
+FLOORS = {'quick': {'timesteps_cut_short_by_a_failing_system': 1353, 'histories_with_failing_systems': 833, 'other_model_stepped_inside_our_timestep': 2713, 'str_subclass_ids': 11455, 'falsy_system_objects': 9414, 'action_steps': 2400, 'act_cleanup': 60, 'act_remove_earlier': 90, 'act_remove_later': 90, 'act_add_higher': 120,
                     'act_add_equal': 60, 'act_add_lower': 120, 'act_replace_earlier': 200, 'act_replace_later': 200, 'act_readd_self': 200,
                     'act_readd_earlier': 200, 'act_compound': 500, 'act_readd_later': 200, 'blocks_multi': 2000, 'blocks_single': 2000, 'removed_via_clean_up': 300, 'big_histories': 20, 'big_history_changes': 1000, 'quiet_steps': 4000, 'two_actor_steps': 1000,
                     'reach:Core.SystemManager.execute_systems': 5000, 'reach:Core.System.clean_up': 60},
@@ -51,6 +51,10 @@ def fixtures():
             act = w.script.pop((self.uid, t), None)        # every scripted action happens once
             if act is not None:
                 w.perform(self, act, t)
+            fault = w.faults.pop((self.uid, t), None)       # a scripted one-shot failure (after the system did what it does)
+            if fault is not None:
+                from vlib import faults
+                raise faults.make(fault, f'{self.uid} fails at {t}')
 
     import ECAgent.Collectors as collectors
 
@@ -96,6 +100,7 @@ class World:
         self.other.systems.add_system(self.Scripted.Idle('s0', self.other))
         self.log = []          # (timestep, uid)
         self.script = {}
+        self.faults = {}
         self.ref = []          # dicts id(uid), sid, prio, seq  (registered now)
         self.seq = 0
         self.changes = []      # dicts kind, uid, t, pos (number of executions logged in that timestep before the change), entry
@@ -185,6 +190,9 @@ class World:
             for _ in range(n):
                 self.model.systems.execute_systems()
         check(self.model.systems.timestep == t0 + n, f'{n} timesteps requested, clock advanced by {self.model.systems.timestep - t0}', doing=what)
+        return self.verify_range(t0, n, ref_t, mark_c, what, mode)[0]
+
+    def verify_range(self, t0, n, ref_t, mark_c, what, mode):
         changed = False
         for t in range(t0, t0 + n):
             step_log = [u for (tt, u) in self.log if tt == t]
@@ -205,7 +213,44 @@ class World:
                     raise CaseViolation('a timestep without changes does not run exactly the registered systems in priority order '
                                         '(after an earlier mid-timestep change)', timestep=t, expected=exp, observed=step_log, doing=what,
                                         advanced_by=mode)
-        return changed
+        return changed, ref_t
+
+    def run_with_failures(self, until, rng, what):
+        """Advances to timestep `until` with single and multi-step requests, some of which are cut short by a system that raises; the
+        caller catches the error and goes on.  Complete timesteps are verified as always; of a cut-short timestep only 'nobody twice' is
+        demanded, and its log is forgotten (the registry changes made in it stay, of course)."""
+        from vlib import faults
+        guard = 0
+        while self.model.systems.timestep < until and guard < 60:
+            guard += 1
+            t0 = self.model.systems.timestep
+            ref_t, mark_c, mark_l = list(self.ref), len(self.changes), len(self.log)
+            n = min(rng.choice([1, 1, 2, 3]), until - t0)
+            if n == 1:
+                _, err = faults.attempt(self.model.systems.execute_systems)
+                mode = 'single'
+            else:
+                _, err = faults.attempt(self.model.execute, n)
+                mode = 'multi'
+            self.ctx.ev()
+            if err is None:
+                check(self.model.systems.timestep == t0 + n, f'{n} timesteps requested, clock advanced by {self.model.systems.timestep - t0}', doing=what)
+                self.verify_range(t0, n, ref_t, mark_c, what, mode)
+                continue
+            if not isinstance(err, (faults.Boom, faults.Interrupt)) and not any(isinstance(err, c) for c in faults.ORDINARY):
+                raise CaseViolation(f'unexpected {type(err).__name__}: {err}', doing=what)
+            new = self.log[mark_l:]
+            tf = new[-1][0] if new else t0            # the timestep that was cut short = that of the last system that ran
+            self.ctx.count('timesteps_cut_short_by_a_failing_system')
+            self.ctx.count('failing_system_interrupt' if isinstance(err, faults.Interrupt) else 'failing_system_exception')
+            if tf > t0:
+                self.verify_range(t0, tf - t0, ref_t, mark_c, what, mode)
+            part = [u for (tt, u) in new if tt == tf]
+            dup = [u for u in set(part) if part.count(u) > 1]
+            if dup:
+                raise CaseViolation(f'system(s) {sorted(dup)} ran more than once in a timestep that was cut short by a failing system', log=part, doing=what)
+            self.log[:] = [e for e in self.log if e[0] != tf]
+            self.changes[:] = [c for c in self.changes if c['t'] != tf]
 
     def verify_action_step(self, t, log, start_ref, changes, what, mode):
         start_order = self.order(start_ref)
@@ -349,6 +394,46 @@ def case_rand(ctx, case):
 
 
 
+def case_faulty(ctx, case):
+    """Histories in which systems change the system set mid-timestep AND systems raise (ordinary exceptions, KeyboardInterrupt-likes): the
+    caller catches and carries on with the same model; every complete timestep afterwards obeys the property as if nothing had happened."""
+    from vlib import faults
+    rng = ctx.rng('faulty', case['i'])
+    n = rng.randint(3, 6)
+    levels = rng.sample(range(-3, 4), rng.randint(1, 3))
+    prios = [rng.choice(levels) for _ in range(n)]
+    w = World(ctx, prios, flavour=rng.randint(0, 5))
+    horizon = rng.randint(5, 9)
+    desc = []
+    for k in range(rng.randint(2, 5)):
+        ai = rng.randrange(n)
+        kind = rng.choice(['cleanup', 'remove', 'add', 'add', 'replace', 'readd'])
+        others = [j for j in range(n) if j != ai]
+        if kind == 'cleanup':
+            act = ('cleanup',)
+        elif kind == 'remove':
+            act = ('remove', f's{rng.choice(others)}')
+        elif kind == 'replace':
+            act = ('replace', f's{rng.choice(others)}', rng.choice(levels) + rng.choice([-1, 0, 1]))
+        elif kind == 'readd':
+            act = ('readd', f's{rng.randrange(n)}', rng.choice(levels) + rng.choice([-2, -1, 0, 1]))
+        else:
+            act = ('add', f'new{k}', rng.choice(levels) + rng.choice([-1, 0, 1, 5, -5]))
+        key = (f's{ai}', rng.randrange(horizon))
+        if key not in w.script:
+            w.script[key] = act
+            desc.append((key, act))
+    for k in range(rng.randint(1, 3)):
+        key = (f's{rng.randrange(n)}', rng.randrange(horizon))
+        w.faults[key] = faults.pick(rng)
+        desc.append((key, 'raises ' + w.faults[key].__name__))
+    w.run_with_failures(horizon + 3, rng, f'changes and failures {desc}')
+    ctx.count('histories_with_failing_systems')
+    ctx.distinct(('faulty', tuple(prios), tuple(str(d) for d in desc)))
+    if case['i'] < 1:
+        ctx.sample({'kind': 'changes and failures', 'priorities': prios, 'script': [str(d) for d in desc]})
+
+
 def case_big(ctx, case):
     """Scale regime: 40-130 systems, 70-100 timesteps, one scripted change per timestep (removal-heavy stretches without any registration,
     registrations of higher-priority systems into long queues, re-registrations), advanced in blocks of single steps or execute(n)."""
@@ -404,7 +489,7 @@ def case_big(ctx, case):
 
 
 def run_case(ctx, case):
-    {'ex': case_ex, 'rand': case_rand, 'big': case_big}[case['kind']](ctx, case)
+    {'ex': case_ex, 'rand': case_rand, 'big': case_big, 'faulty': case_faulty}[case['kind']](ctx, case)
 
 
 def run(ctx):
@@ -421,6 +506,9 @@ def run(ctx):
     for i in range(N_BIG[ctx.tier]):
         if ctx.mine(i) and not ctx.full():
             ctx.run_case({'kind': 'big', 'i': i}, run_case)
+    for i in range(N_RANDOM[ctx.tier]):
+        if ctx.mine(i) and not ctx.full():
+            ctx.run_case({'kind': 'faulty', 'i': i}, run_case)
 
 
 def replay(ctx, case):
